@@ -24,6 +24,8 @@ enum Case {
     ContainsMismatch { n: usize, m: usize },
     /// static-array receiver of contains
     ContainsArray { n: usize },
+    /// both operands are windows of the same buffer (prefixes, overlapping windows, empty slices)
+    ContainsAlias { n: usize },
 }
 
 fn gen(t: Tier, _seed: u64, emit: &mut dyn FnMut(Case)) {
@@ -71,6 +73,9 @@ fn gen(t: Tier, _seed: u64, emit: &mut dyn FnMut(Case)) {
     }
     for n in [1usize, 2, 3, 15, 16, 17, 33] {
         emit(Case::ContainsArray { n });
+    }
+    for n in [1usize, 2, 3, 5, 16, 17] {
+        emit(Case::ContainsAlias { n });
     }
 }
 
@@ -328,6 +333,41 @@ fn run(c: &Case, out: &mut Out) {
                 let q: Vec<Iupac> = (0..*m).map(|i| al[i % 4]).collect();
                 contains_one(&p, &q, s, (s * 7) % 16, out);
                 contains_one(&q, &p, s, (s * 7) % 16, out);
+            }
+        }
+        Case::ContainsAlias { n } => {
+            let nsym = by_set(15);
+            // a parent of N's and a few concrete bases: many windows contain each other
+            let pm: Vec<Iupac> = (0..*n + 20).map(|i| if i % 3 == 1 { al[i % 4] } else { nsym }).collect();
+            let parent = build(&pm);
+            let headed = owned_headed(&pm, 5);
+            for a in 0..pm.len() {
+                for la in 0..=*n {
+                    for b in 0..pm.len() {
+                        for lb in [la, la.saturating_sub(1), la + 1, 0] {
+                            if a + la > pm.len() || b + lb > pm.len() {
+                                continue;
+                            }
+                            out.units += 1;
+                            let (x, y) = (&pm[a..a + la], &pm[b..b + lb]);
+                            let want = x.len() == y.len() && x.iter().zip(y).all(|(p, q)| set(*q) & !set(*p) == 0);
+                            out.stage = "contains between windows of one buffer";
+                            let r = out.catch(|| (parent[a..a + la].contains(&parent[b..b + lb]), headed[a..a + la].contains(&headed[b..b + lb])));
+                            out.check(r == Ok((want, want)), || {
+                                (
+                                    format!("iupac/slice.contains-alias/{}", if want { "false-negative" } else { "false-positive" }),
+                                    format!("windows [{a}..{}] and [{b}..{}] of one buffer {}: contains = {:?}, want {want}", a + la, b + lb, show_cut(&pm), r),
+                                )
+                            });
+                        }
+                    }
+                }
+            }
+            // an owned pattern against its own prefixes / itself
+            out.stage = "Seq::contains(own slice)";
+            for k in 0..=pm.len() {
+                let r = out.catch(|| parent.contains(&parent[..k]));
+                out.check(r == Ok(k == pm.len()), || ("iupac/seq.contains-alias/false-positive".into(), format!("p.contains(&p[..{k}]) with p of {} symbols = {:?}", pm.len(), r)));
             }
         }
         Case::ContainsArray { n } => {
